@@ -22,6 +22,8 @@
 (*  C16_IdlerUids/Flags        while idling, once nothing is runnable any  *)
 (*                             more, the client is up to date              *)
 (*  C16_DoneEndsOk/OtherEndsBad  DONE -> tagged OK, anything else -> BAD   *)
+(*  C16_PushedBeforeEnd        when IDLE ends the client's view equals the *)
+(*                             server's: nothing computed was left unsent  *)
 (*                                                                         *)
 (* The handlers are TOTAL: a failed clause is recorded in `bad` (with the  *)
 (* line) and the rest of that trace is skipped, so a verdict always names  *)
@@ -130,7 +132,8 @@ Tagged(ev) ==
   IF ~ev.selected
   THEN /\ cv' = [cv EXCEPT ![s] = <<>>] /\ cf' = [cf EXCEPT ![s] = <<>>]
        /\ mode' = [mode EXCEPT ![s] = "none"] /\ Ok
-  ELSE IF ~Agrees(cv[s], ev.view) THEN Fail("C01_ViewAtTagged")
+  ELSE IF ~Agrees(cv[s], ev.view)
+       THEN Fail(IF mode[s] = "idle" THEN "C16_PushedBeforeEnd" ELSE "C01_ViewAtTagged")
   ELSE /\ cv' = [cv EXCEPT ![s] = ev.view]
        /\ mode' = [mode EXCEPT ![s] = "none"] /\ UNCHANGED cf /\ Ok
 
